@@ -138,6 +138,10 @@ def constraint(cons, geo, D, x0=None):
         name, par = cons[0], list(cons[1:])
     else:
         name, par = cons, []
+    col = name.endswith("_c")   # column-vector variant: returns an (N, 1) array (the shape the library's own message asks for)
+    if col:
+        inner = constraint([name[:-2]] + par, geo, D)
+        return lambda X: np.asarray(inner(X)).reshape(-1, 1)
     real = name.endswith("_r")  # real-valued variant: returns the amount of violation (> 0 = violated)
     if real:
         name = name[:-2]
@@ -237,4 +241,4 @@ def half_for(x0kind, geo, D, real=False):
     rng = ub - lb
     rng = np.where(np.isfinite(rng), rng, 0.0)
     slack = 0.7 + 2.5e-3 * float(rng[0] + (rng[1] if D > 1 else 0.0))  # a start on a bound is moved 0.1% inside
-    return ["half_r" if real else "half", s + slack]
+    return ["half_r" if real is True else ("half_c" if real == "col" else "half"), s + slack]
